@@ -6,7 +6,7 @@
 using namespace vf;
 
 struct Unit { std::string written, eff, lead, params; int matched = -1; std::vector<long long> nums; bool numsKnown = false; std::vector<int> ints; };
-struct MCase { std::vector<GenPattern> table; std::vector<int> nReaders; std::vector<Unit> units; std::string text; std::string term; bool decoy = false; };
+struct MCase { std::vector<bool> fails; /* per table entry: the handler reads its parameters and then returns SCPI_RES_ERR */ std::vector<GenPattern> table; std::vector<int> nReaders; std::vector<Unit> units; std::string text; std::string term; bool decoy = false; };
 
 static std::string pathOf(const std::string &eff) { size_t c = eff.rfind(':'); return c == std::string::npos ? "" : eff.substr(0, c + 1); }
 
@@ -14,6 +14,8 @@ static MCase decode(Src &s) {
     MCase c;
     c.table = genTable(s);
     for (size_t i = 0; i < c.table.size(); i++) c.nReaders.push_back((int) s.weighted({5, 3, 2}));
+    // which unit ran, with which path, must not depend on how the unit before it ended
+    for (size_t i = 0; i < c.table.size(); i++) c.fails.push_back(s.prob(1, 5));
     std::vector<RefPattern> refs;
     for (auto &p : c.table) refs.push_back(refParsePattern(p.text));
     int nu = s.prob(1, 400) ? (int) s.range(257, 300) : (int) s.weighted({1, 3, 3, 2, 1, 1}) + 1;   // now and then more units than 8 bits count
@@ -69,8 +71,8 @@ static MCase decode(Src &s) {
 
 static std::string describe(const MCase &c) {
     std::string t = "table [";
-    for (size_t i = 0; i < c.table.size(); i++) t += fmt("%zu:'", i + 1) + c.table[i].text + "' ";
-    return t + "] message '" + vis(c.text) + "'";
+    for (size_t i = 0; i < c.table.size(); i++) t += fmt("%zu:'", i + 1) + c.table[i].text + (i < c.fails.size() && c.fails[i] ? "'(handler fails) " : "' ");
+    return t + "] message '" + vis(c.text) + "'" + (c.decoy ? " [second instrument interleaved]" : "");
 }
 
 static std::string runCase(const MCase &c, bool *nt = nullptr) {
@@ -80,13 +82,14 @@ static std::string runCase(const MCase &c, bool *nt = nullptr) {
         Cmd cmd; cmd.pattern = c.table[i].text;
         for (int r = 0; r < c.nReaders[i]; r++) cmd.script.readers.push_back(Reader());
         cmd.script.numbers = refNumericCount(refParsePattern(c.table[i].text)); cmd.script.numDefault = -7; cmd.script.probeSelf = true;
+        if (i < c.fails.size() && c.fails[i]) cmd.script.retOk = false;
         k.cmds.push_back(cmd);
     }
     Inst I(k);
     bool ret = I.input(c.text);
     if (!I.invariant.empty()) return I.invariant + ": " + describe(c);
     std::vector<std::string> exp, got;
-    bool anyUnmatched = false, anyDiff = false;
+    bool anyUnmatched = false, anyDiff = false, anyFailed = false;
     for (auto &u : c.units) {
         if (u.eff != u.written) anyDiff = true;
         if (u.matched < 0) { exp.push_back("E:-113"); anyUnmatched = true; continue; }
@@ -95,6 +98,7 @@ static std::string runCase(const MCase &c, bool *nt = nullptr) {
         if (nn > 0) { std::string n = "N:1:"; for (int i = 0; i < nn; i++) n += u.numsKnown ? fmt("%lld,", u.nums[(size_t) i] < 0 ? -7LL : u.nums[(size_t) i]) : std::string("?,"); exp.push_back(n); }
         exp.push_back("I:1:" + u.eff);
         for (int v : u.ints) exp.push_back(fmt("V:i32:1:0:%d", v));
+        if ((size_t) u.matched < c.fails.size() && c.fails[(size_t) u.matched]) { exp.push_back("E:-200"); anyFailed = true; }
     }
     for (auto &l : I.trace) if (l[0] == 'H' || l[0] == 'N' || l[0] == 'I' || l[0] == 'V' || l[0] == 'E') got.push_back(l);
     if (nt) *nt = c.units.size() >= 2 && anyDiff;
@@ -108,12 +112,15 @@ static std::string runCase(const MCase &c, bool *nt = nullptr) {
         std::string e, g; for (auto &x : exp) e += x + " | "; for (auto &x : got) g += x + " | ";
         return "handler/error trace differs from the reference semantics.\n   expected: " + e + "\n   got:      " + g + "\n   " + describe(c);
     }
-    if (ret != !anyUnmatched) return fmt("SCPI_Input returned %d, expected %d: ", (int) ret, (int) !anyUnmatched) + describe(c);
+    if (ret != !(anyUnmatched || anyFailed)) return fmt("SCPI_Input returned %d, expected %d: ", (int) ret, (int) !(anyUnmatched || anyFailed)) + describe(c);
 #if USE_DEVICE_DEPENDENT_ERROR_INFORMATION
     std::vector<std::string> q = I.drainErrors();
     size_t qi = 0;
     for (auto &u : c.units) {
-        if (u.matched >= 0) continue;
+        if (u.matched >= 0) {
+            if ((size_t) u.matched < c.fails.size() && c.fails[(size_t) u.matched]) { if (qi >= q.size() || q[qi].compare(0, 4, "-200") != 0) return "no -200 queued for a handler that failed silently: " + describe(c); qi++; }
+            continue;
+        }
         if (qi >= q.size()) return "queue holds fewer -113 entries than unmatched units: " + describe(c);
         std::string ent = q[qi++];
         if (ent.compare(0, 5, "-113:") != 0 && ent != "-113") return "queue entry '" + vis(ent) + "' is not a -113: " + describe(c);
